@@ -285,7 +285,8 @@ pub fn replay(args: &Args) {
     let only_time = args.flag("only-time");
     let mut lang_checked = 0u64;
     let mut missing = std::collections::BTreeSet::new();
-    for v in &cases {
+    for v in cases {
+        let v = &v;
         match get_str(v, "op") {
             "cast" => {
                 let (from, to, val) = (get_str(v, "from"), get_str(v, "to"), get_i64(v, "v"));
